@@ -66,6 +66,7 @@ class RuleContext:
         self._seen_keys: set = set()
         self.duplicates = 0
         self.group_errors: list = []
+        self.rule_alias = None
 
     # -- registration
     def rule(self, rid: str, text: str):
@@ -96,6 +97,11 @@ class RuleContext:
             self.prog.functions.get(func_fq, None) and self.prog.functions[func_fq].node, "lineno", 0)
 
     def ob(self, rule: str, func_fq: str, node, ok, explanation: str, construct=None, nontrivial=True, **detail):
+        if self.rule_alias is not None:
+            # a rule group shared with another property is running under that property's rule id
+            if rule not in self.rule_alias:
+                return None
+            rule = self.rule_alias[rule]
         rel, qual, line = self.site(func_fq, node)
         status = "discharged" if ok is True else ("violated" if ok is False else "undecidable")
         o = Obligation(rule, rel, qual, line, norm_src(construct if construct is not None else node), status,
@@ -111,6 +117,10 @@ class RuleContext:
 
     def floor(self, rule: str, what: str, found: int, minimum: int):
         """A rule that matches fewer instances than confirmed by hand is an analysis error, not a pass."""
+        if self.rule_alias is not None:
+            if rule not in self.rule_alias:
+                return
+            rule = self.rule_alias[rule]
         self.floors.append((rule, what, found, minimum))
         if found < minimum:
             raise AnalysisError(f"{rule}: found {found} {what}, expected at least {minimum} (anchor vanished or unmodelled)")
